@@ -290,6 +290,17 @@ impl Serialize for ErrorKind {
             Self::ResourceLimitExceeded { admin_contact } => {
                 st.serialize_entry("admin_contact", admin_contact)?;
             }
+            Self::BadStatus { status, body } => {
+                if let Some(status) = status {
+                    st.serialize_entry("status", &status.as_u16())?;
+                }
+                if let Some(body) = body {
+                    st.serialize_entry("body", body)?;
+                }
+            }
+            Self::WrongRoomKeysVersion { current_version } => {
+                st.serialize_entry("current_version", current_version)?;
+            }
             Self::_Custom { extra, .. } => {
                 for (k, v) in &extra.0 {
                     st.serialize_entry(k, v)?;
